@@ -35,6 +35,11 @@ LEAN_TARGETS = ["NauyacaVerif.Props.C12"]
 THEOREMS = [f"NauyacaVerif.C12.{t}" for t in
             ("script_complete", "crash_atomic", "import_all_or_nothing", "bad_entry_fails", "frame",
              "key_injective", "key_injective_chars", "export_import", "export_import_any_order")]
+LEAN_TARGETS = LEAN_TARGETS + ["NauyacaVerif.Props.Tr.TofuScript"]
+TRANSLATED = ["tofuVerify", "tofuTrust", "tofuRevoke", "tofuRevokeHost", "tofuClear"]
+THEOREMS = THEOREMS + [f"NauyacaVerif.Translated.{t}" for t in (
+    "tofuTrust_script", "tofuVerify_script", "tofuRevoke_script", "tofuRevokeHost_script", "tofuClear_script",
+    "tofuTrust_crash", "tofuVerify_crash", "tofuRevoke_crash", "tofuRevokeHost_crash", "tofuClear_crash")]
 EXTRACT: list[str] = []
 ASSUMPTIONS = [
     "SQLite: a transaction is atomic and durable at commit(); a connection closed (or a process killed) without commit rolls back — exercised by the kill family (os._exit at every boundary, file reopened) and, for transactions larger than SQLite's page cache, by the bulk family (one late boundary per case), not proved",
